@@ -11,6 +11,7 @@ def sig_of(clause, op):
 
 def run(ctx):
     ctx.trusted_base += [
+        "the pipe directions' function: harness/proxy/verif_c14_test.go `readx` (a connection wrapper places the cancellation between the start of a Read and the clearing of its deadline), run here too",
         "hooks: verif points at the atomic steps of lib.Task (build tag verif, /repo commit 7817c1b); the controller parks every goroutine at each point and releases one at a time (synctest.Wait gives exact quiescence)",
         "correspondence: every released step is replayed through Model/Task.lean (exec) and the observable state (running flag, done flag, done channel, active invocations, channel returned by Stop) compared after each step",
         "modelled, not verified: Model/Task.lean (hand-written transition system whose labels are the verif points)",
@@ -67,6 +68,34 @@ def run(ctx):
             ctx.tie_failures.append("correspondence broken: model and implementation differ in %d schedules; first: %s after %s: impl %r model %r"
                                     % (len(diffs), d["header"], L.last_op_before(d["lines"], d["first"]), d["impl"], d["other"]))
         allcases += cases
+    # the tasks that matter most are the two directions of a pipe, whose function is a loop around StratumConnection.Read: a
+    # stop that arrives while the direction is entering Read (after the read has started, before its deadline is cleared)
+    # must still end it — otherwise the waiter of Stop() blocks for ever.  The `readx` histories of C14's harness place the
+    # cancellation exactly there.
+    pexe = L.build_harness(ctx, "proxy")
+    readx = 0
+    if pexe:
+        rc, out = L.run_harness(ctx, pexe, "TestVerifC14$", env={"VERIF_N": 200 if ctx.tier == "quick" else 3000}, timeout=900)
+        if rc != 0:
+            ctx.tie_failures.append("connection harness run failed (rc=%d): %s" % (rc, out[-300:]))
+        else:
+            cimpl = ctx.out + "/c14.impl.txt"
+            cmodel = cimpl + ".model.txt"
+            rc, err = L.drv("model", "c14", cimpl, cmodel)
+            if rc != 0:
+                ctx.tie_failures.append("driver model c14 failed: " + err[-200:])
+            else:
+                readx = sum(1 for h, ls in L.parse_cases(cimpl) for l in ls if l == "> readx")
+                for d in L.diff_cases(cimpl, cmodel):
+                    op = L.last_op_before(d["lines"], d["first"])
+                    if op.strip() != "> readx":
+                        continue
+                    L.violation(ctx, "c12:stop-while-entering-read-leaves-the-waiter-blocked",
+                                "a cancellation that lands while a relay direction enters Read (after the read started, before its deadline is cleared) does not end the read: implementation %r, model %r — the direction never returns and the waiter of Stop() stays blocked" % (d["impl"], d["other"]),
+                                {"clause": "no interleaving of start, stop and cancellation leaves a waiter blocked", "case": d["header"],
+                                 "ops": [l for l in d["lines"][:d["first"] + 1] if l.startswith("> ")], "how_to_replay": "bin/check C14 --replay <this file>"})
+                    break
+    ctx.coverage["read_cancelled_while_entering"] = readx
     # uncontrolled stress (no hooks involved)
     rc, out = L.run_harness(ctx, exe, "TestVerifC12Stress$", env={"VERIF_N": 5000 if ctx.tier == "quick" else 100000}, timeout=900)
     stress = {}
